@@ -91,6 +91,24 @@ func newWaitTarget(kind string) interface{} {
 	case "CreateStreamPacket":
 		var p *rtmp.CreateStreamPacket
 		return &p
+	case "PublishPacket":
+		var p *rtmp.PublishPacket
+		return &p
+	case "PlayPacket":
+		var p *rtmp.PlayPacket
+		return &p
+	case "SetChunkSize":
+		var p *rtmp.SetChunkSize
+		return &p
+	case "WindowAcknowledgementSize":
+		var p *rtmp.WindowAcknowledgementSize
+		return &p
+	case "SetPeerBandwidth":
+		var p *rtmp.SetPeerBandwidth
+		return &p
+	case "UserControl":
+		var p *rtmp.UserControl
+		return &p
 	}
 	rp.Bug("unknown wait kind %s", kind)
 	return nil
